@@ -312,25 +312,26 @@ pub fn replace_named_lifetimes(ty: &mut Type) {
 pub fn replace_lifetime(ty: &mut Type) {
     use syn::{GenericArgument, PathArguments};
 
-    match ty {
-        Type::Path(p) => {
-            p.path
-                .segments
-                .iter_mut()
-                .filter_map(|segment| match &mut segment.arguments {
-                    PathArguments::AngleBracketed(ab) => Some(ab),
-                    _ => None,
-                })
-                .flat_map(|ab| ab.args.iter_mut())
-                .for_each(|arg| {
-                    if let GenericArgument::Lifetime(lt) = arg {
-                        // `'static` never names the source: `Cow<'static, str>` stays as written
-                        if lt.ident != "static" {
-                            *lt = Lifetime::new("'s", lt.span());
-                        }
+    let replace_in_path = |path: &mut Path| {
+        path.segments
+            .iter_mut()
+            .filter_map(|segment| match &mut segment.arguments {
+                PathArguments::AngleBracketed(ab) => Some(ab),
+                _ => None,
+            })
+            .flat_map(|ab| ab.args.iter_mut())
+            .for_each(|arg| {
+                if let GenericArgument::Lifetime(lt) = arg {
+                    // `'static` never names the source: `Cow<'static, str>` stays as written
+                    if lt.ident != "static" {
+                        *lt = Lifetime::new("'s", lt.span());
                     }
-                });
-        }
+                }
+            });
+    };
+
+    match ty {
+        Type::Path(p) => replace_in_path(&mut p.path),
         Type::Reference(r) => {
             let span = match &r.lifetime {
                 // `&'static str` stays as written
@@ -344,10 +345,15 @@ pub fn replace_lifetime(ty: &mut Type) {
         // `Box<dyn Trait + 'a>`: the lifetime bound of a trait object names the source lifetime too
         Type::TraitObject(object) => {
             for bound in object.bounds.iter_mut() {
-                if let syn::TypeParamBound::Lifetime(lt) = bound {
-                    if lt.ident != "static" {
-                        *lt = Lifetime::new("'s", lt.span());
+                match bound {
+                    syn::TypeParamBound::Lifetime(lt) => {
+                        if lt.ident != "static" {
+                            *lt = Lifetime::new("'s", lt.span());
+                        }
                     }
+                    // `dyn Trait<'a>`
+                    syn::TypeParamBound::Trait(bound) => replace_in_path(&mut bound.path),
+                    _ => (),
                 }
             }
         }
@@ -369,7 +375,13 @@ pub fn traverse_type(ty: &mut Type, f: &mut impl FnMut(&mut Type)) {
         }
         Type::Group(group) => traverse_type(&mut group.elem, f),
         Type::Paren(paren) => traverse_type(&mut paren.elem, f),
-        Type::Path(path) => traverse_path(&mut path.path, f),
+        Type::Path(path) => {
+            // `<W<'a> as Trait>::Out`
+            if let Some(qself) = &mut path.qself {
+                traverse_type(&mut qself.ty, f);
+            }
+            traverse_path(&mut path.path, f)
+        }
         Type::Ptr(p) => traverse_type(&mut p.elem, f),
         Type::Reference(r) => traverse_type(&mut r.elem, f),
         Type::Slice(slice) => traverse_type(&mut slice.elem, f),
